@@ -12,8 +12,25 @@ import (
 const kABool = 45
 
 type AtomicBool struct {
-	v int32
+	v   int32
+	id  int
+	rel uint64
 }
+
+func (ab *AtomicBool) obj() int {
+	if ab.id == 0 {
+		ab.id = vsched.NewObjID()
+	}
+	return ab.id
+}
+
+const (
+	opRead = 1 + iota
+	opWrite
+)
+
+func readOp()  { vsched.SetOp(opRead, func(o int) bool { return o == opRead }) }
+func writeOp() { vsched.SetOp(opWrite, nil) }
 
 func New() *AtomicBool { return new(AtomicBool) }
 
@@ -30,9 +47,10 @@ func (ab *AtomicBool) Set() {
 		realatomic.StoreInt32(&ab.v, 1)
 		return
 	}
-	vsched.Yield("abool.Set", kABool, 0)
-	vsched.HAcq(*vsched.RelSlot(1))
-	*vsched.RelSlot(1) = vsched.HRel()
+	writeOp()
+	vsched.Yield("abool.Set", kABool, ab.obj())
+	vsched.HAcq(ab.rel)
+	ab.rel = vsched.HRel()
 	ab.v = 1
 }
 
@@ -41,9 +59,10 @@ func (ab *AtomicBool) UnSet() {
 		realatomic.StoreInt32(&ab.v, 0)
 		return
 	}
-	vsched.Yield("abool.UnSet", kABool, 0)
-	vsched.HAcq(*vsched.RelSlot(1))
-	*vsched.RelSlot(1) = vsched.HRel()
+	writeOp()
+	vsched.Yield("abool.UnSet", kABool, ab.obj())
+	vsched.HAcq(ab.rel)
+	ab.rel = vsched.HRel()
 	ab.v = 0
 }
 
@@ -51,9 +70,9 @@ func (ab *AtomicBool) IsSet() bool {
 	if !vsched.Active() {
 		return realatomic.LoadInt32(&ab.v) == 1
 	}
-	vsched.Yield("abool.IsSet", kABool, 0)
-	vsched.HAcq(*vsched.RelSlot(1))
-	*vsched.RelSlot(1) = vsched.HRel()
+	readOp()
+	vsched.Yield("abool.IsSet", kABool, ab.obj())
+	vsched.HAcq(ab.rel)
 	return ab.v == 1
 }
 
